@@ -11,6 +11,13 @@ What is proved here for ALL universes, worlds and states:
 * `resolve_names_unique`  a successful resolution holds at most one package per name;
 * `resolve_ok_or_err`     the result is a set or an error, never a partial set flagged ok.
 
+* `resolve_sound_partial`  a successful resolution that raised NO ghost flag is `Valid` (for every
+                    universe with pairwise distinct ids, every world, every initial dq) — equivalently
+                    `invalid_has_flag`: every invalid output of the model carries one of the five flags.
+                    The ingredients (`Lemmas/Resolver*.lean`): `constrain_tightens`, `candidate_sat`,
+                    `getDeps_mono` (dq / selected / flags only grow), `getDeps_closed` (the closure
+                    invariant of the dependency walk), `go_sound`; `resolve_subset` needs no hypothesis.
+
 The full soundness statement `ResolveSound` (resolve = ok s → Valid) is FALSE on the unchanged tree:
 five concrete witnesses (`F02a_witness` … `F02e_witness`) are proved below, one per unsound shortcut of
 the greedy algorithm; each is replayed on the Go code from corpus/resolver/.  The shortcuts are
@@ -19,6 +26,10 @@ a listed flag by the driver, and an invalid output with no flag is reported as a
 -/
 import Apko.Model.Resolver
 import Apko.Generated.Resolver
+import Apko.Proofs.Lemmas.ResolverTop
+import Apko.Proofs.Lemmas.ResolverDriver
+import Apko.Proofs.Lemmas.ResolverFlags
+import Apko.Proofs.Lemmas.ResolverFuel
 
 namespace Apko.C02
 open Apko Apko.Resolver
@@ -337,5 +348,198 @@ theorem not_ResolveSound : ¬ ResolveSound := by
     rw [hw.1] at hv
     exact absurd hv (by simp)
   · simp at hw
+
+/-! ## soundness of every resolution that raised no ghost flag
+
+The five ghost flags are the ONLY ways the greedy resolver produces an invalid set: this is proved for
+all universes with distinct ids, all worlds, all initial disqualification sets, all provider orders
+(`c.order` is unconstrained), both install_if loops and both `bothBad` settings.  Proof structure, in
+`Apko/Proofs/Lemmas/Resolver{Basic,State,Loop,Mono,Closed,Top}.lean`. -/
+
+/-- well-formedness the proof needs: package ids are pairwise distinct (`id` models Go's pointer identity,
+so this holds of every universe the harness builds); nothing is assumed of `order`, `installIfFixed`,
+`addedOrder`, `bothBad`. -/
+def UniverseWF (c : Cfg) : Prop := IdsDistinct c.u
+
+instance (c : Cfg) : Decidable (UniverseWF c) := by unfold UniverseWF; infer_instance
+
+/-- T `resolve_subset`: every member of a successful resolution is a package of the universe
+(no hypothesis; holds with or without flags, install_if additions included) -/
+theorem resolve_subset (c : Cfg) (w : List Text) (dq0 : List Nat) (r : Resolution)
+    (h : resolve c w dq0 = .ok r) : ∀ p ∈ r.install, p ∈ c.u.all := by
+  unfold resolve at h
+  split at h
+  · simp at h
+  · split at h
+    · simp at h
+    · simp at h
+    · exact go_subset c _ _ _ _ _ r h (by simp)
+
+/-- T `dq_monotone`: the dependency walk never removes a disqualification -/
+theorem dq_monotone (c : Cfg) (fuel : Nat) (pkg : Pkg) (allowPin : Text) (parents : List (Text × Nat))
+    (ds : DepSt) (out : DepOut) (h : getDeps c fuel pkg allowPin parents ds = .ok out) :
+    ds.st.dq ⊆ out.ds.st.dq :=
+  (getDeps_mono c allowPin fuel pkg parents ds out h).dq
+
+/-- T `flags_monotone`: the dependency walk never clears a ghost flag -/
+theorem flags_monotone (c : Cfg) (fuel : Nat) (pkg : Pkg) (allowPin : Text) (parents : List (Text × Nat))
+    (ds : DepSt) (out : DepOut) (h : getDeps c fuel pkg allowPin parents ds = .ok out) :
+    ∀ f ∈ ds.st.flags, f ∈ out.ds.st.flags :=
+  (getDeps_mono c allowPin fuel pkg parents ds out h).flags_sub
+
+/-- T `deps_closed`: a flag-free walk from a root (no ancestors) leaves every non-conflict dependency of the
+root and of every emitted package satisfied inside any set `S` that holds the root, the emitted packages
+and the packages recorded in `selected` -/
+theorem deps_closed (c : Cfg) (hu : UniverseWF c) (S : List Pkg) (fuel : Nat) (pkg : Pkg) (allowPin : Text)
+    (ds : DepSt) (out : DepOut) (h : getDeps c fuel pkg allowPin [] ds = .ok out)
+    (hpu : pkg ∈ c.u.all) (hpS : pkg ∈ S) (hdS : ∀ x ∈ out.deps, x ∈ S)
+    (hsel : ∀ e ∈ out.ds.st.selected, e.2 ∈ S) (hkey : ∀ e ∈ ds.st.selected, KeyOK e)
+    (hfl : out.ds.st.flags = []) :
+    ∀ p, (p = pkg ∨ p ∈ out.deps) → ∀ d ∈ p.deps, isConflict d = false → ∃ q ∈ S, sat q d = true := by
+  intro p hp
+  rcases getDeps_closed c hu S allowPin fuel pkg [] ds out h hpu hpS hdS hsel hkey hfl p hp with
+    ⟨a, ha, _⟩ | h1
+  · simp at ha
+  · exact h1
+
+/-- the three semantic clauses at once -/
+theorem resolve_flagless (c : Cfg) (w : List Text) (dq0 : List Nat) (r : Resolution) (hu : UniverseWF c)
+    (h : resolve c w dq0 = .ok r) (hf : r.flags = []) :
+    (∀ e ∈ w, isConflict e = false → ∃ p ∈ r.install, sat p e = true) ∧
+    (∀ p ∈ r.install, DepsSat r.install p) := by
+  unfold resolve at h
+  split at h
+  · simp at h
+  · next dq1 hdq1 =>
+    split at h
+    · simp at h
+    · simp at h
+    · next depMap dq2 hwl =>
+      have hsub : dq1 ⊆ dq2 := worldLoop_infl c _ _ _ _ _ hwl
+      have := go_sound c hu w depMap ⟨dq2, [], []⟩ [] [] r h hf (by simp) (by simp) (by simp)
+        (fun e he hnc => (constrain_tightens c w dq0 dq1 hdq1 e he hnc).mono hsub)
+      refine ⟨this.2.1, fun p hp => ?_⟩
+      rcases this.2.2 p hp with h1 | h1
+      · simp at h1
+      · exact h1
+
+/-- T `resolve_world_satisfied_partial`: with no ghost flag, every non-conflict world entry is satisfied -/
+theorem resolve_world_satisfied_partial (c : Cfg) (w : List Text) (dq0 : List Nat) (r : Resolution)
+    (hu : UniverseWF c) (h : resolve c w dq0 = .ok r) (hf : r.flags = []) :
+    ∀ e ∈ w, isConflict e = false → ∃ p ∈ r.install, sat p e = true :=
+  (resolve_flagless c w dq0 r hu h hf).1
+
+/-- T `resolve_closed_partial`: with no ghost flag, the install set is closed under dependencies -/
+theorem resolve_closed_partial (c : Cfg) (w : List Text) (dq0 : List Nat) (r : Resolution)
+    (hu : UniverseWF c) (h : resolve c w dq0 = .ok r) (hf : r.flags = []) :
+    ∀ p ∈ r.install, ∀ d ∈ p.deps, isConflict d = false → ∃ q ∈ r.install, sat q d = true :=
+  (resolve_flagless c w dq0 r hu h hf).2
+
+/-- T `resolve_sound_partial`: a successful resolution that raised no ghost flag is a closed, consistent
+install set.  Together with the witnesses above: the five flagged shortcuts are exactly where the
+resolver can go wrong. -/
+theorem resolve_sound_partial (c : Cfg) (w : List Text) (dq0 : List Nat) (r : Resolution)
+    (hu : UniverseWF c) : resolve c w dq0 = .ok r → r.flags = [] → Valid c.u w r.install := by
+  intro h hf
+  refine ⟨resolve_world_satisfied_partial c w dq0 r hu h hf, resolve_closed_partial c w dq0 r hu h hf,
+    resolve_names_unique c w dq0 r h, ?_⟩
+  intro p hp
+  exact ⟨p, resolve_subset c w dq0 r h p hp, rfl, rfl, rfl⟩
+
+/-- T `invalid_has_flag`: what the driver observes on every run, as a theorem — an invalid output of the
+model always carries a ghost flag -/
+theorem invalid_has_flag (c : Cfg) (w : List Text) (dq0 : List Nat) (r : Resolution) (hu : UniverseWF c)
+    (h : resolve c w dq0 = .ok r) (hinv : validB c.u w r.install = false) : r.flags ≠ [] := by
+  intro hf
+  have := (validB_iff _ _ _).mpr (resolve_sound_partial c w dq0 r hu h hf)
+  rw [hinv] at this
+  exact absurd this (by simp)
+
+/-- the hypotheses are satisfiable by non-trivial values: all five witness universes are well-formed … -/
+example : UniverseWF (cfgOf uA) ∧ UniverseWF (cfgOf uB) ∧ UniverseWF (cfgOf uC) ∧ UniverseWF (cfgOf uD) ∧
+    UniverseWF (cfgOf uE) := by decide
+
+/-- … and a flag-free successful resolution exists (two packages, a versioned dependency through a provide) -/
+def flagFreeOk (ps : List Pkg) (w : List String) (n : Nat) : Bool :=
+  match resolve (cfgOf ps) (w.map String.toList) [] with
+  | .ok r => r.flags.isEmpty && r.install.length == n
+  | _ => false
+
+set_option maxRecDepth 100000 in
+example : UniverseWF (cfgOf [exA, exB]) ∧ flagFreeOk [exA, exB] ["a"] 2 = true := by decide
+
+/-! ## what this means for the driver's verdicts
+
+The correspondence suite sends (universe, world, Go's answer) to the driver, which runs the model on a
+universe parsed by `readArchs` and classifies an invalid answer by `classOf` of the model's flags. -/
+
+/-- T `driver_universe_wf`: `UniverseWF` holds of every universe the driver resolves in -/
+theorem driver_cfg_wf {n : Nat} {rest rest' : List String} {archs : List (Text × Universe)}
+    {self : Text} {u : Universe} (h : Driver.Resolver.readArchs n rest = some (archs, rest'))
+    (hl : lookupT archs self = some u) : UniverseWF (Driver.Resolver.cfgOf u) :=
+  driver_universe_wf h hl
+
+/-- T `driver_invalid_listed`: whenever the model's own successful answer on a driver universe is invalid,
+the class the driver reports is one of the five listed findings, never `unlisted` — so an `unlisted`
+verdict of the suite can only mean that the Go code and the model disagree. -/
+theorem driver_invalid_listed {n : Nat} {rest rest' : List String} {archs : List (Text × Universe)}
+    {self : Text} {u : Universe} (h : Driver.Resolver.readArchs n rest = some (archs, rest'))
+    (hl : lookupT archs self = some u) (w : List Text) (dq0 : List Nat) (r : Resolution)
+    (hr : resolve (Driver.Resolver.cfgOf u) w dq0 = .ok r)
+    (hinv : validB u w r.install = false) : Driver.Resolver.classOf r.flags ≠ "unlisted" :=
+  classOf_listed (invalid_has_flag _ w dq0 r (driver_cfg_wf h hl) hr hinv)
+    (resolve_flags_known _ w dq0 r hr)
+
+/-! ## the hypotheses of `resolve_sound_partial` cannot be dropped -/
+
+/-- the model resolves `w` successfully, the set is invalid, and the ghost flags are exactly `flags` -/
+def invalidWith (ps : List Pkg) (w : List String) (flags : List String) : Bool :=
+  match resolve (cfgOf ps) (w.map String.toList) [] with
+  | .ok r => !validB (cfgOf ps).u (w.map String.toList) r.install && r.flags == flags
+  | _ => false
+
+/-- each of F02a–F02d ALONE makes a resolution invalid (no other flag fires in these runs), so none of them
+can be removed from the hypothesis `r.flags = []`.  (F02e never fires alone on a successful run: the
+skipped package and its namesake ancestor are both emitted, which raises F02a as well — `F02e_with_a`.) -/
+theorem F02a_alone : invalidWith uA ["a", "b"] ["F02a"] = true := by
+  set_option maxRecDepth 100000 in decide
+theorem F02b_alone : invalidWith uB ["top"] ["F02b"] = true := by
+  set_option maxRecDepth 100000 in decide
+theorem F02c_alone : invalidWith uC ["top"] ["F02c"] = true := by
+  set_option maxRecDepth 100000 in decide
+theorem F02d_alone : invalidWith uD ["a"] ["F02d"] = true := by
+  set_option maxRecDepth 100000 in decide
+theorem F02e_with_a : invalidWith uE ["d"] ["F02e", "F02a"] = true := by
+  set_option maxRecDepth 100000 in decide
+
+/-- `UniverseWF` is needed: in `uE` with the two versions of `d` sharing one id (which Go's pointer identity
+rules out) the cycle guard and the de-duplication ghost test both see "the same package", no flag fires,
+and the set `{d-1, g}` is invalid (`d-1 → e`) -/
+def uE_sharedId := [mk 0 "d" "2" ["g"] [] [], mk 1 "g" "1" ["virt"] [] [], mk 0 "d" "1" ["e"] ["virt=1"] [], mk 3 "e" "1" [] [] []]
+theorem UniverseWF_needed : ¬ UniverseWF (cfgOf uE_sharedId) ∧ invalidWith uE_sharedId ["d"] [] = true := by
+  set_option maxRecDepth 100000 in decide
+
+/-! ## the fuel is always sufficient -/
+
+/-- T `resolve_total`: the model never runs out of fuel (every universe, world, dq set, provider order): the
+by-name cycle guard bounds the depth of the walk by the number of packages, every pass of the dependency
+loop and of the world loop removes one entry.  So the `.ok` / `.err` theorems cover all behaviours. -/
+theorem resolve_total (c : Cfg) (w : List Text) (dq0 : List Nat) : resolve c w dq0 ≠ .outOfFuel := by
+  intro h
+  unfold resolve at h
+  split at h
+  · simp at h
+  · split at h
+    · simp at h
+    · next hwl => exact worldLoop_no_oof c _ _ _ _ (Nat.lt_succ_self _) hwl
+    · exact go_no_oof c _ _ _ _ _ h
+
+/-- T `resolve_ok_or_err_total`: `resolve_ok_or_err` without the third alternative -/
+theorem resolve_ok_or_err_total (c : Cfg) (w : List Text) (dq0 : List Nat) :
+    (∃ r, resolve c w dq0 = .ok r) ∨ resolve c w dq0 = .err := by
+  rcases resolve_ok_or_err c w dq0 with h | h | h
+  · exact Or.inl h
+  · exact Or.inr h
+  · exact absurd h (resolve_total c w dq0)
 
 end Apko.C02
